@@ -165,7 +165,7 @@ pub fn check_program(prog: &Program, seed: u64, thorough: bool, rep: &mut Report
 pub fn run(p: &Params, rep: &mut Report) {
     let stride = 1;
     for_tiny_programs(p, rep, stride, p.size(150, 3000), |prog, seed, rep| check_program(prog, seed, p.thorough, rep));
-    let n = p.size(200, 2000);
+    let n = p.size(200, 1200);
     let w = [(Profile::Boundary, 15), (Profile::Loops, 25), (Profile::Boolean, 35), (Profile::Patterns, 10), (Profile::Mixed, 15)];
     for_programs(p, rep, 5, n, &w, (15, 45), |prog, seed, rep| check_program(prog, seed, p.thorough, rep));
 }
